@@ -318,9 +318,10 @@ func Payload(e Event) (data []byte, ok bool) {
 	case Weightless:
 		return []byte(WeightlessPayloads[mod(e.Variant, len(WeightlessPayloads))]), true
 	case BadHost:
-		v := mod(e.Variant, len(BadHostURLs)*len(BadHostPlaces))
+		// variants below NVariants(BadHost) put the bad URL into the weights; higher ones into the other members
+		v := mod(e.Variant, len(BadHostURLs)*len(AllBadHostPlaces))
 		bad := BadHostURLs[v%len(BadHostURLs)]
-		switch BadHostPlaces[v/len(BadHostURLs)] {
+		switch AllBadHostPlaces[v/len(BadHostURLs)] {
 		case "weights":
 			return []byte(`{"weights":` + weightsObject(e.Hosts, bad, 1) + `,"clusterName":"c"}`), true
 		case "uriSpecificProperties":
